@@ -36,6 +36,7 @@ type Obligation struct {
 	smtPath string
 	CrossSolver string
 	rawSMT      string
+	noSplit     bool
 	GuardCover  string
 }
 
